@@ -1291,6 +1291,7 @@ else:
 
 _expr_dict['abs'] = cs_safe.abs
 _expr_dict['arctan2'] = cs_safe.arctan2
+_expr_dict['log1p'] = cs_safe.log1p  # numpy's complex log1p is inaccurate near zero
 
 
 class _NumpyMsg(object):
